@@ -156,6 +156,10 @@ def make_env(expr, model, backend):
     env = {"einsum": einsum, "sqrt": lambda x: SqrtTok(x)}
     hf = HF()
     env["hf"] = hf
+    for term in expr.terms:
+        for obj in term.objects:
+            if isinstance(obj.base, Symbol):     # scalar symbols of the prefactor
+                env[obj.base.name] = model.symbol(obj.base.name)
     for name, (base, idx) in tensor_table(expr).items():
         raw = Raw(lambda orbs, base=base, idx=idx: eval_factor(base, dict(zip(idx, orbs)), model), len(idx))
         if name.startswith("V_"):
@@ -256,6 +260,8 @@ def parse_libtensor(text, env):
             for x in args[1:]:
                 prod = prod * x
             return summed(prod, prod.free)
+        if peek() != "(" and isinstance(env.get(name), (int, Fraction)):    # scalar symbol
+            return NT((), lambda a, v=Fraction(env[name]): v)
         if peek() == "(":
             pos[0] += 1
             m = re.match(r"([a-z](\|[a-z])*)?\)", text[pos[0]:])
@@ -318,7 +324,7 @@ def build(case):
     idx = {n: get_symbols(n, spin)[0] for n in NAMES + ["l"]}
     fs = []
     for kind, names, exp in case["objs"]:
-        t = tuple(idx[n] for n in names)
+        t = tuple(idx[n] for n in names) if kind != "S" else ()
         h = len(t) // 2
         if kind == "V":
             o = AntiSymmetricTensor("V", t[:h], t[h:], 1)
@@ -328,6 +334,8 @@ def build(case):
             o = AntiSymmetricTensor("A", t[:h], t[h:])
         elif kind == "d":
             o = KroneckerDelta(*t)
+        elif kind == "S":
+            o = Symbol(names[0])
         else:
             o = NonSymmetricTensor("Z", t)
         fs.append(o ** exp)
@@ -344,8 +352,18 @@ def gen_cases(tier, seed):
            "pref": [1, 1], "target": "ij", "backend": "einsum"}
     yield {"objs": [["X", ["i", "k"], 1], ["X", ["k", "l"], 1], ["A", ["l", "k"], 1], ["X", ["l", "j"], 1],
                     ["X", ["l", "c"], 1]], "pref": [3, 2], "target": "ijc", "backend": "einsum"}
+    # scalar symbols in the prefactor (with multiplicity), alone and with tensors
+    yield {"objs": [["S", ["w"], 1], ["X", ["i", "a"], 1]], "pref": [1, 2], "target": "ia", "backend": "einsum"}
+    yield {"objs": [["S", ["w"], 2], ["S", ["y"], 1], ["X", ["i", "a"], 1], ["A", ["a", "i"], 1]],
+           "pref": [-3, 2], "target": "", "backend": "libtensor"}
+    yield {"objs": [["S", ["w"], 2], ["X", ["i", "a"], 1], ["V", ["j", "a", "b", "i"], 1]],
+           "pref": [-3, 4], "target": "jb", "backend": "einsum"}
+    yield {"objs": [["S", ["y"], 3], ["X", ["j", "i"], 1], ["X", ["i", "i"], 1]],
+           "pref": [1, 3], "target": "j", "backend": "libtensor", "optimize": False}
     for _ in range(80 if tier == "quick" else 1500):
         objs = []
+        if rng.random() < 0.25:
+            objs.append(["S", [rng.choice(["w", "y"])], rng.choice([1, 1, 2])])
         for _o in range(rng.randint(1, 3)):
             kind = rng.choice(["V", "f", "A", "X", "X", "d"])
             if kind == "V":
@@ -413,6 +431,6 @@ CHECKS = {
     "generated_code.execute": {
         "function": "adcgen.generate_code.generate_code:generate_code", "cases": gen_cases,
         "check": check,
-        "bound": "single terms of <= 3 objects (ERI, Fock, antisymmetric / non symmetric tensors, deltas, exponents <= 2, traces) over 7 single letter index names, random target order with / without bra-ket separator, rational prefactors, einsum and libtensor backends, optimised / unoptimised schemes, spin orbital indices or indices of one spin with an explicit target spin string; emitted text executed by an independent interpreter, 2 occ + 2 virt spin orbitals",
+        "bound": "single terms of <= 3 objects (ERI, Fock, antisymmetric / non symmetric tensors, deltas, exponents <= 2, traces), optionally times a scalar Symbol with exponent <= 3 over 7 single letter index names, random target order with / without bra-ket separator, rational prefactors, einsum and libtensor backends, optimised / unoptimised schemes, spin orbital indices or indices of one spin with an explicit target spin string; emitted text executed by an independent interpreter, 2 occ + 2 virt spin orbitals",
     },
 }
